@@ -339,6 +339,14 @@ def r5_failure_links_nothing(ctx, P, R="C05.R5"):
             ctx.inst(R, b.path, okr, "the Err edge of allocate constructs E::allocation(layout)", where=b.where(), site="Err -> E::allocation")
 
 
+def r6_requested_size_multiple(ctx, P):
+    R = "C05.R6"
+    ctx.rule(R, "the size requested for a chunk is a multiple of the header alignment (rounding step = max(page, header "
+                "alignment)), so trimming the granted size to that alignment keeps it >= the request: the release size stays "
+                "between requested and granted")
+    from . import c12
+    c12.size_step_rule(ctx, P, R)
+
 def run(ctx, progs):
     ctx.assume("rustc nightly's type checker, MIR construction and trait resolution are correct")
     ctx.assume("the base allocator is the type parameter A of the chunk types; its methods are foreign code")
@@ -349,4 +357,5 @@ def run(ctx, progs):
         r3_reset(ctx, P)
         r4_layout_agreement(ctx, P)
         r5_failure_links_nothing(ctx, P)
+        r6_requested_size_multiple(ctx, P)
     ctx.config = None
